@@ -21,6 +21,7 @@
 package main
 
 import (
+	"context"
 	"encoding/binary"
 	"encoding/json"
 	"fmt"
@@ -365,8 +366,173 @@ func runHistory(line []byte) (out interface{}, err error) {
 	return res, nil
 }
 
+// ---------------------------------------------------------------------------------------------
+// Driver "txcache": runs the REAL intake cache (mempool.NewTxCache + its ListenEvent goroutine) in
+// front of a real pool, with a consumer that keeps every received set (the slice itself, no copy)
+// and looks at it again after later sets have arrived.
+//
+// input : {"size":k,"naccts":m,"univ":[tx,...],"ops":[op,...]}
+//   op = [0,[tx,...]]  the transactions are accepted: pushed into RecvTxC (what Prepare does)
+//        [1]           the consumer takes the next set from TxSetC (null when none is offered)
+//        [2]           the set timer fires (hook VerifFireTxSetTimer; 0 when the loop is blocked handing over a set)
+// output: {"steps":[{"k":0}|{"k":1,"set":[tx..]|null,"prev":[tx..]|null}|{"k":2,"ok":0|1}],
+//          "end":[[tx..],...]   every taken set re-read at the end, in order (this is what goes into the pool)
+//          "held":[0|1 per universe tx]  GetTransaction after ProcessTransactions(set) for every set in order,
+//          "pend":[pending nonce per account]}
+type cacheIn struct {
+	Size   uint64              `json:"size"`
+	Naccts int                 `json:"naccts"`
+	Univ   [][4]int64          `json:"univ"`
+	Ops    [][]json.RawMessage `json:"ops"`
+}
+
+type cacheStep struct {
+	K    int         `json:"k"`
+	Set  *[][4]int64 `json:"set,omitempty"`
+	Prev *[][4]int64 `json:"prev,omitempty"`
+	None int         `json:"none,omitempty"`
+	Ok   int         `json:"ok"`
+}
+
+type cacheOut struct {
+	Steps []cacheStep  `json:"steps"`
+	End   [][][4]int64 `json:"end"`
+	Held  []int        `json:"held"`
+	Pend  []uint64     `json:"pend"`
+	Err   string       `json:"err,omitempty"`
+}
+
+// wait until the ListenEvent goroutine has consumed what it can (RecvTxC empty, or blocked handing over a set)
+func quiesce(tc *mempool.TxCache) {
+	last, same := -1, 0
+	for i := 0; i < 400 && same < 4; i++ {
+		time.Sleep(150 * time.Microsecond)
+		n := len(tc.RecvTxC)
+		if n == last {
+			same++
+		} else {
+			last, same = n, 0
+		}
+	}
+}
+
+func runCache(line []byte) (out interface{}, err error) {
+	var h cacheIn
+	if err := json.Unmarshal(line, &h); err != nil {
+		return cacheOut{Err: "parse"}, nil
+	}
+	res := cacheOut{Steps: []cacheStep{}, End: [][][4]int64{}}
+	defer func() {
+		if r := recover(); r != nil {
+			res.Err = "panic"
+			out, err = res, nil
+		}
+	}()
+	if h.Naccts <= 0 {
+		h.Naccts = 1
+	}
+	w := newWorld(h.Naccts)
+	w.cfg = cfgIn{Batch: 1000, Pool: 100000}
+	w.fresh(1, make([]uint64, h.Naccts))
+	tc := mempool.NewTxCache(time.Hour, h.Size, w.logger)
+	ctx, cancel := context.WithCancel(context.Background())
+	defer cancel()
+	go tc.ListenEvent(ctx)
+	show := func(l []pb.Transaction) *[][4]int64 {
+		o := make([][4]int64, 0, len(l))
+		for _, tx := range l {
+			if tx == nil {
+				o = append(o, [4]int64{-1, -1, -1, -1})
+			} else {
+				o = append(o, w.unmk(tx))
+			}
+		}
+		return &o
+	}
+	var sets []*pb.Transactions
+	for _, op := range h.Ops {
+		if len(op) == 0 {
+			res.Err = "op"
+			return res, nil
+		}
+		code, _ := num(op[0])
+		switch {
+		case code == 0 && len(op) == 2:
+			l, err := parseTxs(op[1])
+			if err != nil {
+				res.Err = "op"
+				return res, nil
+			}
+			for _, t := range l {
+				tx, err := w.mk(t)
+				if err != nil {
+					res.Err = "op"
+					return res, nil
+				}
+				tc.RecvTxC <- tx
+			}
+			quiesce(tc)
+			res.Steps = append(res.Steps, cacheStep{K: 0})
+		case code == 1 && len(op) == 1:
+			st := cacheStep{K: 1}
+			select {
+			case s := <-tc.TxSetC:
+				st.Set = show(s.Transactions)
+				if n := len(sets); n > 0 {
+					st.Prev = show(sets[n-1].Transactions)
+				}
+				sets = append(sets, s)
+			case <-time.After(40 * time.Millisecond):
+				st.None = 1
+			}
+			quiesce(tc)
+			res.Steps = append(res.Steps, st)
+		case code == 2 && len(op) == 1:
+			st := cacheStep{K: 2}
+			if mempool.VerifFireTxSetTimer(tc, 30) {
+				st.Ok = 1
+			}
+			quiesce(tc)
+			res.Steps = append(res.Steps, st)
+		default:
+			res.Err = "op"
+			return res, nil
+		}
+	}
+	// a slow consumer: only now do the sets go into the pool, as they look now
+	for _, s := range sets {
+		res.End = append(res.End, *show(s.Transactions))
+		ok := true
+		for _, tx := range s.Transactions {
+			if tx == nil {
+				ok = false
+			}
+		}
+		if ok {
+			w.pool.ProcessTransactions(s.Transactions, false, true)
+		}
+	}
+	for _, t := range h.Univ {
+		tx, err := w.mk(t)
+		if err != nil {
+			res.Err = "univ"
+			return res, nil
+		}
+		hd := 0
+		if g := w.pool.GetTransaction(tx.GetHash()); g != nil && g.GetHash().String() == tx.GetHash().String() {
+			hd = 1
+		}
+		res.Held = append(res.Held, hd)
+	}
+	for _, a := range w.names {
+		res.Pend = append(res.Pend, w.pool.GetPendingNonceByAccount(a))
+	}
+	return res, nil
+}
+
 func main() {
 	hx.Main(map[string]func(args []string) error{
 		"mempool": func(args []string) error { return hx.Lines(runHistory) },
+		"txcache": func(args []string) error { return hx.Lines(runCache) },
 	})
 }
